@@ -14,3 +14,17 @@ for _i in range(1, 21):
 NOT_APPLICABLE['C20'] = ('site-log importers are ~60 regular expressions over multi-line text: symbolic text of that size is out of '
                          'reach for CrossHair (re on symbolic str is inconclusive) and z3/cvc5 string theories cannot express Python '
                          'capture-group semantics; no format specification exists to encode against (DESIGN.md C20)')
+CLAIMED['C02'] = dict(
+    technique=SYMEX + '; parametric evaluator (hand strength per card set = solver variable) vs independent side-pot oracle',
+    text='Bounded symbolic model checking: the real betting/collection/pots/showdown/push/pull code runs on symbolic stacks, raise amounts and '
+         'symbolic hand strengths (a user Hand type whose strength per card set is a z3 integer, optional "no qualifying hand"), so every deal is covered; '
+         'what each player receives from each pot and the final payoffs are compared with an oracle written from the statement.',
+    note='evaluator abstracted to any monotone strength function; contributions read from the engine (C01); n<=3 quick, shapes bounded; int chips; concrete deck order')
+CLAIMED['C04'] = dict(
+    engine='symex+smt',
+    technique='SMT (z3 QF_BV): lookup tables dumped from the running code vs rule oracle over symbolic rank multisets, per-category pair queries; '
+              'CrossHair symbolic execution of the real comparison operators and key functions',
+    text='For every lookup table the current source builds, unsat answers show: present<=>valid, label==category, category ranges ordered as the rules say, '
+         'and rule order<=>index order for all pairs of rank multisets of the type (complete for the class space, e.g. all 7462 standard classes); '
+         'the real Hand.__lt__/__eq__/__hash__ are explored on symbolic indices and the key functions on all 1-2 card sets incl. unknown cards.',
+    note='rule oracle per type is mine (transcribed from the rules); card sets only (no duplicate cards); class->cards step beyond 2 cards relies on uniformity of prod()/set() in the number of cards; z3 trusted')
